@@ -21,6 +21,7 @@ import (
 	"github.com/siderolabs/gen/optional"
 
 	"github.com/cosi-project/runtime/pkg/controller"
+	cosiruntime "github.com/cosi-project/runtime/pkg/controller/runtime"
 	"github.com/cosi-project/runtime/pkg/controller/runtime/options"
 	"github.com/cosi-project/runtime/pkg/resource"
 	"github.com/cosi-project/runtime/pkg/state"
@@ -138,6 +139,9 @@ type interposer struct {
 	mu      sync.Mutex
 	holders []*holder
 	free    atomic.Bool
+	// mergeBoot: the very first batch of a watch (bootstrap contents + Bootstrapped, or the initial bookmark) is held like any
+	// other batch, so that it reaches the runtime merged with the events that followed it
+	mergeBoot bool
 }
 
 func (ip *interposer) WatchKindAggregated(ctx context.Context, kind resource.Kind, ch chan<- []state.Event, opts ...state.WatchKindOption) error {
@@ -172,7 +176,7 @@ func (ip *interposer) WatchKindAggregated(ctx context.Context, kind resource.Kin
 			case <-ctx.Done():
 				return
 			case evs := <-inner:
-				if first || ip.free.Load() {
+				if (first && !ip.mergeBoot) || ip.free.Load() {
 					// the bootstrap batch (and everything in free-running mode) is forwarded as is
 					first = false
 
@@ -220,6 +224,46 @@ func (ip *interposer) flush(kind string) {
 			default:
 			}
 		}
+	}
+}
+
+// injectNoop makes the aggregated watch of one kind deliver a batch that carries nothing to notify about (a bookmark).
+func (ip *interposer) injectNoop(kind string) bool {
+	ip.mu.Lock()
+	defer ip.mu.Unlock()
+
+	for _, h := range ip.holders {
+		if h.kind != kind {
+			continue
+		}
+
+		select {
+		case h.inj <- []state.Event{{Type: state.Noop, Resource: resource.NewTombstone(resource.NewMetadata(ns, typeOf[kind], "", resource.VersionUndefined))}}:
+			return true
+		default:
+		}
+	}
+
+	return false
+}
+
+// dgate parks the runtime's delivery goroutine (verif hook: after it took a key and handed the dedup map back, before it
+// triggers the dependents) until the schedule releases it.
+type dgate struct {
+	credits chan struct{}
+	free    chan struct{}
+}
+
+func (d *dgate) wait(string, string, string) {
+	select {
+	case <-d.free:
+		return
+	default:
+	}
+
+	select {
+	case <-d.credits:
+	case <-d.free:
 	}
 }
 
@@ -553,11 +597,31 @@ func (r *run) write(ctx context.Context, st state.State, c Cmd) {
 	r.emit(Line{Ev: "write", K: c.K, ID: c.ID, Ver: o.Ver, Td: o.Td, Fe: o.Fe, Del: del})
 }
 
-func runBehaviour(t *testing.T, tr *vh.Trace, tid string, beh Beh) {
+func runBehaviour(t *testing.T, tr *vh.Trace, tid string, beh Beh, variant int) {
 	synctest.Test(t, func(t *testing.T) {
 		ctx, cancel := context.WithCancel(context.Background())
 		base := state.WrapCore(namespaced.NewState(inmem.Build))
-		ip := &interposer{CoreState: base}
+		ip := &interposer{CoreState: base, mergeBoot: variant%3 == 1}
+
+		// every second behaviour gates the delivery goroutine: it moves on only at the schedule's "dltrigger" commands
+		var dg *dgate
+
+		if variant%2 == 0 {
+			dg = &dgate{credits: make(chan struct{}, 4096), free: make(chan struct{})}
+			cosiruntime.SetVerifDeliverGate(dg.wait)
+
+			defer cosiruntime.SetVerifDeliverGate(nil)
+		}
+
+		freeDelivery := func() {
+			if dg != nil {
+				select {
+				case <-dg.free:
+				default:
+					close(dg.free)
+				}
+			}
+		}
 		r := &run{t: t, tr: tr, tid: tid, start: time.Now(), beh: beh, gates: map[string]*gate{}, crs: &vh.CrMap{}, ids: []int{1, 2}}
 
 		r.emit(Line{Ev: "reset"})
@@ -628,6 +692,7 @@ func runBehaviour(t *testing.T, tr *vh.Trace, tid string, beh Beh) {
 
 			// release everything that may be parked and see whether Run comes back
 			ip.free.Store(true)
+			freeDelivery()
 
 			for _, g := range r.gates {
 				close(g.free)
@@ -700,6 +765,15 @@ func runBehaviour(t *testing.T, tr *vh.Trace, tid string, beh Beh) {
 				r.register(rtm, c.Ctrl)
 			case "update":
 				r.gates[c.Ctrl].update.Store(true)
+			case "noop":
+				ip.injectNoop(c.K)
+			case "dltrigger":
+				if dg != nil {
+					select {
+					case dg.credits <- struct{}{}:
+					default:
+					}
+				}
 			}
 
 			synctest.Wait()
@@ -725,6 +799,7 @@ func runBehaviour(t *testing.T, tr *vh.Trace, tid string, beh Beh) {
 
 		// release everything and wait until nothing moves during a whole window
 		ip.free.Store(true)
+		freeDelivery()
 
 		for _, g := range r.gates {
 			close(g.free)
@@ -790,6 +865,6 @@ func TestRuntime(t *testing.T) {
 			b.CancelAt, b.ErrAt = -1, -1
 		}
 
-		runBehaviour(t, tr, fmt.Sprintf("r#%d", i), b)
+		runBehaviour(t, tr, fmt.Sprintf("r#%d", i), b, i)
 	}
 }
